@@ -13,7 +13,7 @@ REQUIRED = ["value==averaged 1-D transport cost", "symmetric", "reorder=>0", "tr
             "diagonal translation (also negative)", "linear scaling", "SW <= 2*W1",
             "integer arrays == float arrays of the same values"]
 RULE = ("pairs/triples of diagrams with 0-40 points (quick <=25), empties, coordinates of both signs, near-diagonal points, "
-        "M in {1,2,3,10,50}, scales 1e-3..1e3; translations along the diagonal into negative coordinates. non-trivial = both "
+        "M in {1,2,3,10,50} and random M in 1..259, scales 1e-3..1e3; translations along the diagonal into negative coordinates. non-trivial = both "
         "non-empty and (m != n or coordinates of mixed sign); distinct = digest of (pair, M)")
 ASSUMPTIONS = ["directions: theta_k = pi/2 + k*pi/M, k=0..M-1 (equally spaced over the half circle, starting at the vertical) - "
                "the sampling the statement calls 'the M sampled directions'",
@@ -64,7 +64,7 @@ def gen_pair(rng, tier):
 
 def run_case(ctx, k, rng):
     A, B, scale, sign = gen_pair(rng, ctx.tier)
-    M = int(rng.choice([1, 2, 3, 10, 50, 50]))
+    M = int(rng.choice([1, 2, 3, 10, 50, 50])) if rng.random() < 0.6 else int(rng.integers(1, 260))
     ctx.begin(k, sign, {"PD1": A, "PD2": B, "M": M})
     sc = scale_of(A, B)
 
